@@ -292,4 +292,60 @@ PROPS = {
             {"name": "regression", "run": "TestGetOrAddRegressionF23a", "kind": "plain"},
         ],
     },
+    "C05": {
+        "pkg": "c05",
+        "rule": ("(a) structured mutation: per case 1..5 messages for a world with 2 peers (subscriptions, bindings, an approval callback that approves every "
+                 "write; one case in five delivers to the first peer before its discovery data): each is a valid datagram of one of 19 kinds (discovery "
+                 "reply / partial add / partial remove / full notify, discovery and use-case read, use-case reply, subscription and binding request / delete "
+                 "calls, read with and without filters, reply / notify / write with every filter shape, write through the approval path, result, and a "
+                 "well-typed but arbitrary command with any payload and filter fields) in which 0..3 nodes of the JSON tree, chosen uniformly over all nodes, "
+                 "are dropped, nulled, emptied, retyped or replaced by unknown / inconsistent values. Oracle: every HandleShipPayloadMessage returns (recover = "
+                 "crash, 10 s watchdog = wedge), the application's approval goroutine does not panic, and afterwards a valid detailed-discovery read from "
+                 "each peer gets exactly one reply. (c, thorough) native coverage-guided fuzzing of raw bytes with the repository's JSON fixtures, generated "
+                 "valid datagrams and hostile constants as seed corpus. Non-trivial: a mutated message still decodes and carries a source address and a "
+                 "command (reaches ProcessCmd). Distinct by (templates, mutated paths)."),
+        "assumptions": ["a process abort (panic in a goroutine the stack started) is attributed by the driver to the case being run (saved before it is delivered)",
+                        "the probe read is sent from the peer's NodeManagement feature [0]/0"],
+        "runs": [
+            {"name": "mutated", "run": "TestMutatedMessages", "kind": "rapid", "checks": {Q: 6400, T: 640000}, "shards": {Q: 8, T: 16}, "shrinktime": "20s"},
+            {"name": "fuzz", "run": "FuzzPayload", "kind": "fuzz", "tiers": [T], "fuzztime": "180s", "timeout": 900},
+        ],
+    },
+    "C06": {
+        "pkg": "c06",
+        "rule": ("rapid state machine with 2 peers (same numbering): initial discovery reply, then partial notifications with 1-3 entity entries each "
+                 "added (0-3 features with drawn types, roles, descriptions, operations incl. partial flags) or removed, full notifications, later replies "
+                 "(current set plus additions); entity addresses from {[1],[2],[1,1],[1,2],[2,1]}; repeated adds with unchanged features, removal of "
+                 "unknown entities, add+remove in one notification; subscriptions / bindings by the peer and client-side bookkeeping of a local client "
+                 "feature so that the removal cascade is observable. A reference tree is compared after every message with Entities / Entity / "
+                 "FeatureByAddress / Operations of BOTH peers; the event delta must be exactly one add per appeared and one remove per disappeared entity "
+                 "for the right SKI; after a removal exactly the registry entries and bookkeeping inside the removed entity of that device are gone. "
+                 "Non-trivial: a notification changed the entity set after the initial reply. Distinct by sequence of (peer, kind, entity-set delta)."),
+        "assumptions": ["feature-set changes of existing entities, later replies omitting known entities and full notifications without entity [0] are not generated (DESIGN §4 C06 NA)",
+                        "whether subscribe / bind calls are granted is not asserted here (C08/C09)"],
+        "runs": [
+            {"name": "tree", "run": "TestRemoteTree", "kind": "rapid", "checks": {Q: 2000, T: 60000}, "shards": {Q: 4, T: 16}, "steps": {Q: 30, T: 50}, "shrinktime": "15s"},
+        ],
+    },
+    "C16": {
+        "pkg": "c16",
+        "rule": ("real-time rapid histories: heartbeat timeout from {100,200,300 ms} (rarely 2.1/2.3 s), DeviceDiagnosis server feature with the heartbeat "
+                 "function added before or after 1-2 peers subscribed, drawn sequences of Start / Stop / IsHeartbeatRunning / wait k periods / RemoveEntity; "
+                 "observed through the notifies on every subscriber's writer and a 10 ms DataCopy sampler; invariant over the history: counters strictly "
+                 "increasing, every refresh on every subscribed connection, timestamps within 2 s, mean gap <= 1.5 x timeout + 50 ms while running, refresh "
+                 "count <= window/period + 2, after Stop / RemoveEntity at most one further refresh then silence for 3 periods, IsHeartbeatRunning = model, no "
+                 "panic. A case in which the harness sampler overslept by > 50 ms is discarded (counted). Schedules: Start||Stop, Stop||Stop, Start||Start and "
+                 "3-thread mixes over the two yield points, enumerated (quick: capped and every 8th observed in real time; thorough: exhaustive), each followed "
+                 "by a final Stop and 4 periods of observation (no surviving stream). Hammer: 8 free-running goroutines. Non-trivial: a Start/Stop/RemoveEntity "
+                 "hits a running heartbeat; schedule with >=2 threads parked. Distinct by (timeout, subscribers, operation sequence) / schedule."),
+        "assumptions": ["timeouts are positive multiples of 100 ms (below that the announced duration rounds to 0 and time.NewTicker(0) aborts - outside the stated range)",
+                        "timing tolerances from DESIGN A.6; a doubled period at 100 ms lies on the tolerance boundary"],
+        "runs": [
+            {"name": "histories", "run": "TestHeartbeatHistories", "kind": "rapid", "checks": {Q: 48, T: 1504}, "shards": {Q: 6, T: 16}, "shrinktime": "30s"},
+            {"name": "interleavings", "run": "TestHeartbeatInterleavings", "kind": "plain", "shards": {Q: 8, T: 16}},
+            {"name": "hammer", "run": "TestHeartbeatHammer", "kind": "plain", "shards": {Q: 1, T: 4}, "env": {"VERIF_ROUNDS": {Q: 200, T: 500}}},
+            {"name": "regressions", "run": "TestScheduleRegressions", "kind": "plain"},
+            {"name": "scenarios", "run": "TestSequentialScenarios", "kind": "plain"},
+        ],
+    },
 }
